@@ -246,6 +246,28 @@ fn span_decode(job: &Value) -> Value {
     let got: Vec<u64> = stream.iter().copied().filter(|&c| c != noop).collect();
     let want: Vec<u64> = ops.iter().map(|o| o.op_code() as u64).filter(|&c| c != noop).collect();
     if got != want { problems.push(format!("operation stream {got:?} differs from the program {want:?}")); }
+    // (f) the operation the debug iterator reports for cycle clk is the operation in trace row clk - 1
+    let it = panic::catch_unwind(panic::AssertUnwindSafe(|| {
+        let mut bad: Vec<String> = Vec::new();
+        for state in miden_processor::execute_iter(&program, StackInputs::default(), DefaultHost::default()) {
+            match state {
+                Err(e) => { bad.push(format!("debug iterator: {e:?}")); break; }
+                Ok(st) => {
+                    if let Some(op) = st.op {
+                        let row = st.clk as usize - 1;
+                        if row < n && opcode(row) != op.op_code() as u64 && bad.len() < 4 {
+                            bad.push(format!("cycle {}: debug iterator reports {} but the trace row holds opcode {}", st.clk, op, opcode(row)));
+                        }
+                    }
+                }
+            }
+        }
+        bad
+    }));
+    match it {
+        Ok(bad) => problems.extend(bad),
+        Err(_) => problems.push("debug iterator panicked".to_string()),
+    }
     let n_noops = stream.iter().filter(|&&c| c == noop).count();
     json!({"status":"ok","consistent": problems.is_empty(), "problems": problems, "rows_in_span": stream.len(), "noops": n_noops})
 }
@@ -311,7 +333,15 @@ fn main() {
                                     n += v.stack_overflow().len();
                                 }
                                 for i in 0..v.stack().len() { let _ = v.get_stack_item(i); }
-                                json!({"status":"ok","reencoded": re, "used": n})
+                                // the documented validity rule of StackOutputs::new, evaluated independently
+                                let m = <Felt as StarkField>::MODULUS;
+                                let ns = v.stack().len();
+                                let na = v.overflow_addrs().len();
+                                let valid = ns >= 16 && ns <= u16::MAX as usize
+                                    && v.stack().iter().all(|&x| x < m)
+                                    && v.overflow_addrs().iter().all(|&x| x < m)
+                                    && na == if ns > 16 { ns + 1 - 16 } else { 0 };
+                                json!({"status":"ok","reencoded": re, "used": n, "valid": valid, "stack_len": ns, "addrs_len": na})
                             }
                             Err(e) => json!({"status":"error","error": format!("{e:?}")}),
                         },
